@@ -116,3 +116,6 @@ Print Assumptions C09f_alpha_le_one.
 Print Assumptions C09f_alpha_range.
 Print Assumptions C09f_no_free_variable.
 Print Assumptions C09f_alpha_zero_sign.
+
+(* Non-vacuity / witnesses by computation (Proofs/FSubspaceProofs.v). *)
+Example C09f_nonvacuous := (conj nonfree_negative_zero_changes_sign (conj alpha_zero_by_underflow nan_from_finite_inputs)).
